@@ -138,9 +138,9 @@ def run_scripts(scripts, factory, clock=None):
         wrap_step(m, clock)
     try:
         m.run_plan()
-        return m.log, None
+        return m.log, None, m.final_state()
     except BaseException as e:  # noqa  -- interpreter failure, not a verdict
-        return m.log, "%s: %s" % (type(e).__name__, e)
+        return m.log, "%s: %s" % (type(e).__name__, e), None
 
 
 def run_one(sc):
@@ -157,22 +157,23 @@ def run_one(sc):
         if g.get("driver_error"):
             return dict(out, scripts=g["scripts"], ref_log=g["log"], log=[], ev=[], driver_error=g["driver_error"])
         scripts = shift_until(g["scripts"], t0)
-        ref = g["log"] if t0 == 0 else None
+        ref, ref_final = (g["log"], g["final"]) if t0 == 0 else (None, None)
     else:
         scripts = prog["scripts"]
         ref = None
     out["scripts"] = scripts
     if ref is None:
-        ref, err = run_scripts(scripts, lambda: Environment(t0))
+        ref, err, ref_final = run_scripts(scripts, lambda: Environment(t0))
         if err:
             return dict(out, ref_log=ref, log=[], ev=[], driver_error="reference run: " + err)
     out["ref_log"] = ref
+    out["ref_final"] = ref_final      # final state of every user-visible event (pending / triggered / processed, outcome)
 
     clock = Clock(rt)
     saved = (rtmod.monotonic, rtmod.sleep)
     rtmod.monotonic, rtmod.sleep = clock.monotonic, clock.sleep
     try:
-        log, err = run_scripts(
+        log, err, final = run_scripts(
             scripts, lambda: RealtimeEnvironment(initial_time=t0, factor=rt["F"] / 4.0, strict=bool(rt["strict"])), clock)
     finally:
         rtmod.monotonic, rtmod.sleep = saved
@@ -180,6 +181,7 @@ def run_one(sc):
         out["driver_error"] = "real-time run: " + err
     clock.log("Q")
     out["log"] = log
+    out["final"] = final
     out["ev"] = clock.ev
     return out
 
